@@ -13,7 +13,8 @@ RULE = ("A case draws a dimension class of the linear table units, three unit ex
         "(prefixed atoms, constants, base-unit expansions with random prefixes, atom*X/Y ratios) and a magnitude x "
         "(0, +-, exponents to 1e+-250, scalars and arrays). Oracle: x*F(u)/F(v) with F from the independent table "
         "reference; value(v), to(v), to(v).to(u)==x, to(w).to(v)==direct. Reciprocal-dimension pairs expect "
-        "1/(x F(u))/F(v); bare numbers to rad/mrad; pairs of differing non-reciprocal dimension must raise and leave "
+        "1/(x F(u))/F(v); the target also given as the Quantity k*v (result/k); bare numbers to rad/mrad (a NAMED "
+        "dimensionless unit such as % is not a bare number and must be refused); pairs of differing non-reciprocal dimension must raise and leave "
         "value/units untouched. Non-trivial: u!=v textually with F(u)!=F(v) and x!=0, or a rejection pair, or a "
         "reciprocal pair. Distinct = distinct case JSON.")
 ASSUMPTIONS = [
